@@ -628,6 +628,8 @@ static int __parsec_taskpool_test( parsec_taskpool_t* tp, parsec_execution_strea
     return nbiterations;
 }
 
+int remote_dep_ce_reconfigure(parsec_context_t* context);
+
 static int __parsec_taskpool_wait( parsec_taskpool_t* tp, parsec_execution_stream_t *es )
 {
     uint64_t misses_in_a_row;
@@ -655,6 +657,8 @@ static int __parsec_taskpool_wait( parsec_taskpool_t* tp, parsec_execution_strea
          * progressing the communications we need to make sure the comm engine
          * is ready for primetime. */
         parsec_ce.enable(&parsec_ce);
+        remote_dep_ce_reconfigure(es->virtual_process[0].parsec_context);
+        parsec_remote_dep_reconfigure(es->virtual_process[0].parsec_context);
     }
 #endif /* defined(DISTRIBUTED) */
 
@@ -721,8 +725,6 @@ static void parsec_context_leave_wait(parsec_context_t *parsec)
     parsec->flags &= ~PARSEC_CONTEXT_FLAG_WAITING;
     parsec_list_unlock(parsec->taskpool_list);
 }
-
-int remote_dep_ce_reconfigure(parsec_context_t* context);
 
 int __parsec_context_wait( parsec_execution_stream_t* es )
 {
